@@ -3,7 +3,7 @@
    the two length expressions the code uses (bytes written / bytes encrypted).  Definitions only. *)
 From Coq Require Import NArith List Bool Arith.
 Import ListNotations.
-From LTV.C06 Require Import ParamsGen Model.
+From LTV.C06 Require Import ParamsProbe Model.
 
 Record wcell := mkW { wtag : N; wenc : list nat }.
 Fixpoint enc_from (j : nat) (l : list wcell) : list wcell :=
